@@ -10,7 +10,7 @@ use proptest::prelude::*;
 use serde::{Deserialize, Serialize};
 use std::cmp::Ordering;
 
-pub const RULE: &str = "enumerated: every operator (17 broadcasting + 6 dot) x shape {scalar-scalar, list-scalar, scalar-list, list-list} x ordered pair of element types {number, string, boolean, null, list, record, mixed} x deterministic representatives (lengths 0,1,3, mismatched, ill-typed element at position k>0); random: operator x operands with random contents (numbers incl. NaN, +-inf, +-0), lengths 0..8, correlated lengths; whole-number bases -12..12 (and 10, 2, 1024, ...) raised to whole exponents up to +-1100 in all four shapes. Operands are materialised in a fresh heap, `l OP r` - and `l OP l`, the same heap object on both sides - is evaluated through parser and evaluator and compared with a harness model applying an independent scalar operator per element. Non-trivial = a non-empty list operand with at least one successful element operation, or a designed failure (length mismatch / ill-typed element at position > 0); distinct by (operator, operands).";
+pub const RULE: &str = "enumerated: every operator (17 broadcasting + 6 dot) x shape {scalar-scalar, list-scalar, scalar-list, list-list} x ordered pair of element types {number, string, boolean, null, list, record, mixed} x deterministic representatives (lengths 0,1,3, mismatched, ill-typed element at position k>0); random: operator x operands with random contents (numbers incl. NaN, +-inf, +-0), lengths 0..8, correlated lengths; whole-number bases -12..12 (and 10, 2, 1024, ...) raised to whole exponents up to +-1100 and to fractions 1/k in all four shapes; strings with supplementary-plane characters next to U+E000..U+FFFF. Operands are materialised in a fresh heap, `l OP r` - and `l OP l`, the same heap object on both sides - is evaluated through parser and evaluator and compared with a harness model applying an independent scalar operator per element. Non-trivial = a non-empty list operand with at least one successful element operation, or a designed failure (length mismatch / ill-typed element at position > 0); distinct by (operator, operands).";
 pub const ASSUMPTIONS: &[&str] = &[
     "IEEE-754 results are taken from Rust's own f64 operators (+ - * / % powf), the arithmetic the statement names",
     "for and/or with a left operand that already decides the result and a non-boolean right operand the statement does not say whether the right operand is inspected; the oracle accepts either outcome there",
@@ -320,7 +320,9 @@ fn elem(kind: u8) -> BoxedStrategy<MV> {
             1 => crate::gen_::any_f64().prop_map(num),
         ]
         .boxed(),
-        1 => prop::sample::select(vec!["", "a", "b", "ab", "é", "1"]).prop_map(s).boxed(),
+        // strings incl. supplementary-plane characters next to U+E000..U+FFFF (code-point order
+        // and UTF-16 code-unit order differ there)
+        1 => prop::sample::select(vec!["", "a", "b", "ab", "é", "1", "😀", "\u{ff21}", "\u{fffd}x", "\u{e000}", "a😀", "a\u{ff21}", "\u{10000}", "z"]).prop_map(s).boxed(),
         2 => any::<bool>().prop_map(MV::Bool).boxed(),
         3 => Just(MV::Null).boxed(),
         4 => prop::collection::vec(any::<u16>().prop_map(|i| num(NUMS[pick_idx(i, NUMS.len())])), 0..3)
@@ -390,7 +392,14 @@ fn random_case() -> BoxedStrategy<Case> {
 /// whole-number bases and exponents whose power is huge, tiny, subnormal or inexact
 fn integer_powers() -> BoxedStrategy<Case> {
     let base = prop_oneof![3 => (-12i32..13).prop_map(|b| b as f64), 1 => prop::sample::select(vec![10.0, 2.0, -2.0, 3.0, 7.0, 100.0, 1024.0])];
-    let exp = prop_oneof![2 => (-40i32..41).prop_map(|e| e as f64), 2 => (-1100i32..1101).prop_map(|e| e as f64), 1 => prop::sample::select(vec![-1074.0, -1030.0, -310.0, 100.0, 308.0, 53.0, 64.0])];
+    let exp = prop_oneof![
+        2 => (-40i32..41).prop_map(|e| e as f64),
+        2 => (-1100i32..1101).prop_map(|e| e as f64),
+        1 => prop::sample::select(vec![-1074.0, -1030.0, -310.0, 100.0, 308.0, 53.0, 64.0]),
+        // reciprocals of whole numbers and other fractions (negative bases give NaN in IEEE pow)
+        2 => (1i32..12, any::<bool>()).prop_map(|(k, neg)| if neg { -1.0 / k as f64 } else { 1.0 / k as f64 }),
+        1 => prop::sample::select(vec![0.2, 0.3, 1.5, 2.5, -0.5, 0.1, 1.0 / 3.0]),
+    ];
     (base, exp, 0u8..4)
         .prop_map(|(b, e, shape)| match shape {
             0 => Case { op: Op::Pow, l: num(b), r: num(e) },
